@@ -452,6 +452,50 @@ func sharedOptionTwiceProbe(c *Ctx) {
 	}
 }
 
+// repeatedContentTypeProbe (C12, oracle only): a request whose Content-Type header has several
+// values is dispatched by the first one, as http.Header.Get reads it: an advertised type first
+// is served (user code and interceptors once), whatever follows (round 11, C12-mo).
+func repeatedContentTypeProbe(c *Ctx) {
+	for _, kind := range []string{"unary", "server"} {
+		for _, proto := range []string{"connect", "grpc", "grpcweb"} {
+			ct := ctFor(proto, kind, "raw")
+			for _, values := range [][]string{{ct, ct}, {ct, "text/plain"}, {ct, "", "application/octet-stream"}} {
+				icpt := &specIcpt{}
+				runs := 0
+				var h *connect.Handler
+				if kind == "unary" {
+					h = connect.NewUnaryHandler("/acme.v1.Svc/Do", func(ctx context.Context, r *connect.Request[[]byte]) (*connect.Response[[]byte], error) {
+						runs++
+						return connect.NewResponse(&[]byte{1}), nil
+					}, connect.WithCodec(rawCodec{"raw"}), connect.WithInterceptors(icpt))
+				} else {
+					h = connect.NewServerStreamHandler("/acme.v1.Svc/Do", func(ctx context.Context, r *connect.Request[[]byte], s *connect.ServerStream[[]byte]) error {
+						runs++
+						return nil
+					}, connect.WithCodec(rawCodec{"raw"}), connect.WithInterceptors(icpt))
+				}
+				body := []byte{1}
+				if !(proto == "connect" && kind == "unary") {
+					body = frame(0, body)
+				}
+				req := httptest.NewRequest(http.MethodPost, "/acme.v1.Svc/Do", bytes.NewReader(body))
+				req.ProtoMajor, req.ProtoMinor, req.Proto = 2, 0, "HTTP/2.0"
+				req.Header["Content-Type"] = append([]string(nil), values...)
+				rec := httptest.NewRecorder()
+				desc := fmt.Sprintf("POST to a %s handler with Content-Type values %q", kind, values)
+				c.Count("repeated-content-type")
+				got := safely(func() string {
+					h.ServeHTTP(rec, req)
+					return fmt.Sprintf("status=%d user=%d icpt=%d", rec.Code, runs, icpt.count)
+				})
+				if got != "status=200 user=1 icpt=1" {
+					c.Fail("disp-415-advertised", desc, got, "an advertised Content-Type (the header's first value) was rejected")
+				}
+			}
+		}
+	}
+}
+
 func streamDisp(c *Ctx) {
 	if replayOp != "" {
 		if strings.HasPrefix(replayOp, "disp") {
@@ -465,6 +509,7 @@ func streamDisp(c *Ctx) {
 	recoverSpecProbe(c)
 	rejectionWhileOpenProbe(c)
 	sharedOptionTwiceProbe(c)
+	repeatedContentTypeProbe(c)
 	doneContextChainProbe(c, "disp-once")
 	r := c.Rng
 	kinds := []string{"unary", "client", "server", "bidi"}
